@@ -892,10 +892,15 @@ fn exec_res(line: &str, t: &[&str], rec: &mut Recorder) {
             .iter()
             .enumerate()
             .map(|(k, o)| {
+                // a client that gave up (depth limit, unreachable / refusing servers) leaves a partial cache state
+                // that depends on the interleaving: the probes then have no deterministic model side
+                let unstable = outs[w..(w + b_).min(outs.len())].iter().any(|x| x.class == "err" || x.class == "limit");
                 if k < w {
                     fmt_outcome(&case, o)
                 } else if k < w + b_ {
                     format!("B:{}", fmt_short(o))
+                } else if unstable {
+                    "P:~".to_string()
                 } else {
                     format!("P:{}", fmt_short(o))
                 }
